@@ -59,11 +59,13 @@ def r15_1(repo: Repo) -> RuleResult:
     if len(rets) != 1:
         raise AnalysisError("R15.1: sequence_tree_skip_grams does not return its matrix by name")
     m = rets[0].value.id
-    firsts = [n for n in f.node.body if isinstance(n, ast.If) and isinstance(n.test, ast.Compare) and norm(n.test.left) == param]
+    firsts = [n for n in f.node.body if isinstance(n, ast.If) and param in norm(n.test) and any(isinstance(x, ast.Constant) and isinstance(x.value, str) for x in ast.walk(n.test))]
     if len(firsts) != 1:
         raise AnalysisError("R15.1: orientation dispatch on `%s` not found at the top level of sequence_tree_skip_grams" % param)
+    from .common import flatten_dispatch
+
     for key in ("after", "before", "symmetric", "directional"):
-        arm = _dispatch_arm(firsts[0], key)
+        arm = flatten_dispatch([firsts[0]], key, param)
         stmts = [s for s in arm if not isinstance(s, ast.Pass)]
         if any(isinstance(s, ast.Raise) for s in stmts):
             rr.bad(f, "orientation %r" % key, "the documented orientation %r is rejected" % key, firsts[0].lineno)
